@@ -96,7 +96,6 @@ REST_DIM_TEMPLATES = {
     ('time',): '/{Layer}/{TileMatrixSet}/{Time}/{TileMatrix}/{TileCol}/{TileRow}.{Format}',
     ('elevation', 'time'): '/{Layer}/{TileMatrixSet}/{Time}/{Elevation}/{TileMatrix}/{TileCol}/{TileRow}.{Format}',
 }
-MERC_LIMIT_Y = 20037508.342789244
 
 
 # ------------------------------------------------------------------------------------------------
@@ -411,15 +410,7 @@ def snapshot(cache_root, lock_dir):
                 continue
             if f.endswith(SQLITE_EXT):
                 out.add(('f', rel, -1))
-                try:
-                    db = sqlite3.connect('file:%s?mode=ro' % quote(p), uri=True, timeout=5)
-                    try:
-                        for row in db.execute('SELECT zoom_level, tile_column, tile_row, length(tile_data) FROM tiles'):
-                            out.add(('r', rel) + tuple(row))
-                    finally:
-                        db.close()
-                except sqlite3.OperationalError:
-                    out.add(('f', rel, -2))     # no tiles table (yet)
+                out.update(('r', rel) + row for row in _sqlite_rows(p, rel))
                 continue
             try:
                 size = os.lstat(p).st_size
@@ -427,6 +418,25 @@ def snapshot(cache_root, lock_dir):
                 size = -3
             out.add(('f', rel, size))
     return frozenset(out)
+
+
+def _sqlite_rows(path, rel):
+    """rows of the tiles table (read-only connection); a database without tiles table yields the marker row (-2,)"""
+    last = None
+    for attempt in range(6):
+        try:
+            db = sqlite3.connect('file:%s?mode=ro' % quote(path), uri=True, timeout=10)
+            try:
+                return [tuple(r) for r in db.execute('SELECT zoom_level, tile_column, tile_row, length(tile_data) FROM tiles')]
+            finally:
+                db.close()
+        except sqlite3.OperationalError as e:
+            if 'no such table' in str(e):
+                return [(-2,)]
+            last = e
+            import time
+            time.sleep(0.2 * (attempt + 1))     # harness robustness only (busy database), never part of a verdict
+    raise core.HarnessError('cannot read %s: %r' % (rel, last))
 
 
 def decode_file_path(parts, layout):
@@ -582,7 +592,8 @@ class ConfigRun(object):
         self.stats = stats
         self.opts = case['opts']
         self.facts = grid_facts(case['grid'])
-        self.open = core.open_signatures(PROPERTY) if exclude_known else set()
+        self.listed_open = core.open_signatures(PROPERTY)
+        self.open = set(self.listed_open) if exclude_known else set()
         # test knob for the "quiet with the proposed fix" runs on a patched scratch copy
         self.open -= set(filter(None, os.environ.get('VERIF_ASSUME_FIXED', '').split(',')))
         self.violations = []
@@ -753,6 +764,8 @@ class ConfigRun(object):
     def stored_entry_problem(self, e):
         o = self.opts
         if e[0] == 'r':
+            if len(e) < 5:
+                return None     # marker of a database without tiles table
             z, x, y = e[2], e[3], e[4]
             rel = e[1]
             if rel.startswith('sb' + os.sep):
@@ -891,8 +904,10 @@ class ConfigRun(object):
             self.stats.excluded['known:wmts-level>0-of-sqrt2-grid'] += 1
             return
         sig = None
-        if svc.startswith('wmts') and is_sqrt2(self.case['grid']) and not (lvl_state == 'valid' and li == 0):
-            # root cause shared with C02: TileServiceGrid.internal_tile_coord doubles the level of sqrt2 grids for WMTS too
+        if svc.startswith('wmts') and is_sqrt2(self.case['grid']) and not (lvl_state == 'valid' and li == 0) \
+                and SIG_WMTS_SQRT2 in self.listed_open:
+            # root cause shared with C02 (while that finding is listed as open): TileServiceGrid.internal_tile_coord doubles
+            # the level of sqrt2 grids for WMTS too, the capabilities listed every level
             sig = SIG_WMTS_SQRT2
         if is_fi:
             if expect != 'refuse':
@@ -978,7 +993,7 @@ class ConfigRun(object):
         cls, detail = classify(res)
         if cls == 'raised':
             self.stats.notes['exception-escaped-application:' + detail] += 1
-        classes = classes + ['answer:%s/%s' % (cls, detail if cls in ('error', 'raised') else '')]
+        classes = classes + ['answer:%s/%s' % (cls, detail if cls in ('error', 'raised', 'other') else '')]
         key = (self.conf_key, req[0], req[1])
         self.stats.case(key=key, nontrivial=nontrivial, classes=classes,
                         sample={'grid': self.case['grid'], 'request': '%s?%s' % req if req[1] else req[0], 'expect': expect,
@@ -1175,27 +1190,51 @@ def run_case(case, stats, exclude_known=True):
         logging.disable(logging.NOTSET)
 
 
-N_CONFIGS = {'quick': 240, 'thorough': 9600}
+N_CONFIGS = {'quick': 240, 'thorough': 24000}
+
+
+def _minimal_case_hash():
+    """hash of the all-simplest-choices example, which Hypothesis generates first in every shard whatever the seed"""
+    import hypothesis
+    from hypothesis import HealthCheck, Phase, given, settings
+    got = []
+
+    @hypothesis.seed(0)
+    @settings(max_examples=1, database=None, deadline=None, suppress_health_check=list(HealthCheck), phases=[Phase.generate])
+    @given(cases())
+    def first(case):
+        got.append(case)
+    try:
+        first()
+    except Exception:   # noqa - only an optimisation: without it that example is evaluated once per shard
+        return None
+    return core.case_hash(got[0]) if got else None
 
 
 def search_shard(shard, nshards, seed, tier):
     st_ = core.Stats()
     n = N_CONFIGS[tier] // nshards
-    reported = set()
+    found = {}
+    minimal = _minimal_case_hash()
 
     def check(case, s):
-        g = case['grid']
-        if shard != 0 and case.get('probe_seed') == 0 and g.get('base') == 'GLOBAL_MERCATOR' and g.get('num_levels') == 2 \
-                and not g.get('res_factor') and not g.get('tile_size'):
+        if shard != 0 and core.case_hash(case) == minimal:
             # Hypothesis starts every run with the same minimal example: evaluate it in shard 0 only
             s.excluded['minimal-example-repeated-in-other-shard'] += 1
             return None
-        for v in run_case(case, s):
-            if v.signature not in reported:
-                reported.add(v.signature)
-                return v
+        vs = run_case(case, s)
+        for v in vs:
+            found.setdefault(v.signature, v)
+        done = set(v.signature for v in s.violations)
+        for v in vs:
+            if v.signature not in done:
+                return v        # the same answer when Hypothesis replays the example
         return None
     core.hyp_search(cases(), check, st_, max_examples=max(n, 1), seed=seed, max_signatures=4, shrink=False)
+    done = set(v.signature for v in st_.violations)
+    for sig_, v in sorted(found.items()):
+        if sig_ not in done:
+            st_.violations.append(v)   # further root causes seen on the way (the search is restarted at most 4 times)
     return st_
 
 
